@@ -16,6 +16,7 @@ var families = map[string]func(*h.Run){
 	"C01": props.C01,
 	"C03": props.C03,
 	"C04": props.C04,
+	"C06": props.C06,
 	"C08": props.C08,
 	"C09": props.C09,
 	"C10": props.C10,
